@@ -77,6 +77,17 @@ def _compute(what, o, p, t0):
         t2 = pandas_bridge.df_to_trajectory(df)
         t2.scale(3.0)
         df.iloc[0, 0] = 123.0
+        if o is not p:
+            # a frame that is not sorted by time (two conversions concatenated, later one first) is an argument like any other
+            import pandas as pd
+            both = pd.concat([pandas_bridge.trajectory_to_df(p), pandas_bridge.trajectory_to_df(o)])
+            key = (both.to_numpy().tobytes(), tuple(both.index))
+            try:
+                pandas_bridge.df_to_trajectory(both)
+            except Exception:  # noqa: BLE001
+                pass
+            if (both.to_numpy().tobytes(), tuple(both.index)) != key:
+                raise _ArgumentChanged("DataFrame")
     elif what == "Write":
         file_interface.write_tum_trajectory_file(io.StringIO(), o)
         file_interface.write_kitti_poses_file(io.StringIO(), o)
@@ -126,6 +137,10 @@ def _compute(what, o, p, t0):
         plt.close("all")
 
 
+class _ArgumentChanged(Exception):
+    """an argument that is not a trajectory object (a list, a DataFrame, a matrix) was modified by a computation"""
+
+
 def execute(job):
     from evo.core import sync, trajectory
     from evo.core.geometry import GeometryException
@@ -165,7 +180,11 @@ def execute(job):
                 a, b = sync.associate_trajectories(objs[args[0]], objs[args[1]], max_diff=0.5)
                 created = [a, b]
             elif name == "Merge":
-                created = [trajectory.merge([objs[a] for a in args])]
+                lst = [objs[a] for a in reversed(args)]         # the caller's list (later trajectory first) is an argument too
+                ids0 = [id(x) for x in lst]
+                created = [trajectory.merge(lst)]
+                if [id(x) for x in lst] != ids0:
+                    extras_changed.append("list")
             elif name == "Transform":
                 T = geom.se3(geom.o24_matrix((2, -1, 3)), [1.0, -2.0, 3.0])
                 if n % 2:
@@ -188,6 +207,8 @@ def execute(job):
                 tgt.align_origin(objs[args[0]])
             else:
                 _compute(name, objs[args[0]], objs[args[1]], t0)
+        except _ArgumentChanged:
+            extras_changed.append("frame")
         except (trajectory.TrajectoryException, GeometryException, sync.SyncException):
             pass
         for cid, c in zip(e["created"], created):
@@ -203,6 +224,27 @@ def execute(job):
         if len(created) < len(e["created"]):
             break
     return {"id": "a%d" % n, "built": built, "ev": ev}
+
+
+def big_plot_trace():
+    """plots of a trajectory with 1200 poses (coordinate-frame markers, trajectory, speeds): the argument keeps all its poses"""
+    import matplotlib
+    matplotlib.use("Agg")
+    import matplotlib.pyplot as plt
+    from evo.core.trajectory import PoseTrajectory3D
+    from evo.tools import plot
+    n = 1200
+    pos = np.column_stack((np.arange(n, dtype=float), np.zeros(n), np.zeros(n)))
+    t = PoseTrajectory3D(positions_xyz=pos, orientations_quat_wxyz=np.tile([1.0, 0, 0, 0], (n, 1)), timestamps=np.arange(n, dtype=float))
+    before = (_snap(t), t.num_poses)
+    fig = plt.figure(figsize=(2, 2))
+    ax = plot.prepare_axis(fig, plot.PlotMode.xy)
+    plot.traj(ax, plot.PlotMode.xy, t)
+    plot.draw_coordinate_axes(ax, t, plot.PlotMode.xy, 0.1)
+    plot.speeds(plt.figure(figsize=(2, 2)).gca(), t)
+    plt.close("all")
+    changed = [] if (geom.same_snapshot(_snap(t), before[0]) and t.num_poses == before[1] and len(t.timestamps) == n) else [1]
+    return {"id": "bigplot", "built": "pq", "ev": [{"name": "PlotLong", "kind": "compute", "target": 0, "args": [1], "created": [], "changed": changed}]}
 
 
 def result_traces(seed):
@@ -272,6 +314,7 @@ def run(rep, tier, seed):
     jobs = [(n, h, "se3" if n % 3 else "pq", [0.0, 1.5e9][n % 2], ["none", "all", "check", "views"][(n // 6) % 4]) for n, h in enumerate(hists)]
     traces = core.pmap(execute, jobs, chunksize=50)
     traces += result_traces(seed)
+    traces.append(big_plot_trace())
     for t in traces:
         if len(t["ev"]) >= 2:
             rep.nontriv([t["built"], [(e["name"], e["target"], e["args"]) for e in t["ev"]]])
